@@ -3,7 +3,7 @@ use super::common::*;
 use crate::gen::{Aff, TSpec, TreeGen};
 use crate::regions::Config;
 use crate::report::{catch, par_cases, CaseOut, Report, Tier, Violation};
-use crate::snap::{conform, snap, PipeSide, Snap, TreeSide};
+use crate::snap::{conform_face, snap, PipeSide, TreeSide};
 use affinitree::pwl::afftree::AffTree;
 use serde_json::json;
 
@@ -158,10 +158,10 @@ fn check_compose<const K: usize>(f: &TSpec, g: &TSpec, layout: u8, apply: Option
     let mut conf = 0u64;
     let o = refine(n, &imp, &pipe, &Config::default(), &mut out, &mut |face, _, _| {
         for (t, s) in [(&h, &sh), (&ft, &sf)] {
-            match conform(t, s, &face.w, true) {
-                Ok(true) => conf += 1,
-                Ok(false) => {}
-                Err(e) => conf_err = Some(e),
+            let (n, e) = conform_face(t, s, face, true);
+            conf += n;
+            if let Some(e) = e {
+                conf_err = Some(e)
             }
         }
     });
